@@ -27,10 +27,11 @@ MIN = {'evaluations': 5000, 'allow_decisions': 150, 'deny_decisions': 1000, 'lis
 ANCHORS = ['oslo_policy._checks:GenericCheck.__call__', 'oslo_policy._checks:GenericCheck._find_in_dict',
            'oslo_policy.policy:Enforcer.enforce']
 REQUIRED_ANCHORS = ['oslo_policy.policy:Enforcer.enforce']
-N = {'quick': 40000, 'thorough': 3000000}
+N = {'quick': 160000, 'thorough': 3000000}
 
 KEYS = ['a', 'b', 'c', 'd', 'x1', '_y', 'None', 'True']
-SCAL = [None, True, False, 0, 1, -3, 1.5, 2.0, '', 's', 'APPLES', '1', 'True', 'None', '1.5', "['s']", "{'a': 1}", '[]', '{}']
+SCAL = [None, True, False, 0, 1, -3, 1.5, 2.0, '', 's', 'APPLES', '1', 'True', 'None', '1.5', "['s']", "{'a': 1}", '[]', '{}',
+        'CORP\\alice', 'tab\there', 'it\'s "q"', 'nb\xa0sp', 'é', 'new\nline', 'back\\', "'", '"', 'a b', '\x7f', 'ü:ü']
 UNC = 'UNCONSTRAINED'
 
 
@@ -93,6 +94,7 @@ def gen_case(rnd):
             # follow the structure so that deep positions are actually reached
             segs = []
             v = creds
+            dead = False
             for _ in range(rnd.randint(1, 4)):
                 while isinstance(v, list) and v:
                     v = rnd.choice(v)
@@ -103,22 +105,30 @@ def gen_case(rnd):
                 else:
                     segs.append(rnd.choice(KEYS))
                     v = None
+                    dead = True
             lhs = '.'.join(segs)
+            reached = None if dead else [v]
         else:
             lhs = '.'.join(rnd.choice(KEYS) for _ in range(rnd.randint(1, 4)))
+            reached = None
         val = None
         lit = dict(LITERALS)
         if lhs in lit:                   # a path that spells a literal (None, True) IS a literal
             mode, val = 'lit', lit[lhs]
-        if mode == 'path' and rnd.random() < 0.5:
+        if mode == 'path' and rnd.random() < 0.6:
             # aim the right-hand side at the value actually there
-            v = creds
-            for s in lhs.split('.'):
-                while isinstance(v, list) and v:
-                    v = v[0]
-                v = v.get(s) if isinstance(v, dict) else None
+            if reached is not None:
+                # the value the generated path actually leads to, through randomly chosen list elements - so that the
+                # matching element is as often a later one (after scalars / None / lists) as the first
+                v = reached[0]
+            else:
+                v = creds
+                for s in lhs.split('.'):
+                    while isinstance(v, list) and v:
+                        v = rnd.choice(v)
+                    v = v.get(s) if isinstance(v, dict) else None
             while isinstance(v, list) and v:
-                v = v[-1]
+                v = rnd.choice(v)
             sv = str(v)
             if sv and not any(ch.isspace() for ch in sv) and '%' not in sv and not sv.endswith(')') and \
                     sv[-1] not in '"\'':
